@@ -20,6 +20,7 @@ REQUIRED = {"quick": {"calls_monitored": 1500, "rel:sample_perm": 1000, "rel:clu
                       "bound:mi_logK": 20, "bound:le_one": 200, "closed_simplex_calls": 150, "onehot_dtype_compared": 300},
             "thorough": {"calls_monitored": 30000, "rel:grad_perm": 10000}}
 SHARD_TIMEOUT = {"quick": 900, "thorough": 5400}
+REPOTESTS = {"thorough": 16}      # the repository's own test-suite, in 16 parts, under the same monitors
 
 
 def cases(tier, seed):
